@@ -100,6 +100,15 @@ class Engine:
             rc = None
         return rc
 
+    def wait_exit(self, timeout=5.0):
+        """the process was told to quit already: its exit status, or None (and it is killed) if it does not leave in time"""
+        try:
+            rc = self.p.wait(timeout=timeout)
+        except subprocess.TimeoutExpired:
+            self.p.kill()
+            rc = None
+        return rc
+
     def kill(self):
         try:
             self.p.kill()
